@@ -150,11 +150,17 @@ func VerifGetput_MutableGet() {
 		r.v = verifGPBenc([]byte{byte('a' + i), verifNondetU8()})
 		verifFill(r.sig[:])
 	}
+	// the optional "I already have this seq" argument: absent, below every offered seq, or between them
+	var seqArg *int64
+	if c := verifChoice(0, 2); c > 0 {
+		sq := []int64{1, 5}[c-1]
+		seqArg = &sq
+	}
 	var res GetResult
 	var gerr error
 	done := false
 	go func() {
-		res, _, gerr = Get(context.Background(), target, s, nil, salt)
+		res, _, gerr = Get(context.Background(), target, s, seqArg, salt)
 		done = true
 	}()
 	verifQuiesce()
@@ -254,7 +260,8 @@ func VerifGetput_MutableGet() {
 		verifReach("value")
 	} else {
 		for _, r := range rs {
-			verifAssert(!valid(r), "C12: a verified value that was received is not withheld from the caller")
+			// (a value not newer than the seq the caller says it already has may be left out)
+			verifAssert(!valid(r) || (seqArg != nil && r.seq <= *seqArg), "C12: a verified value that was received is not withheld from the caller")
 		}
 		verifReach("none")
 	}
